@@ -60,7 +60,7 @@ PINS = [("autode/conformers/conformers.py", q) for q in (
     ("autode/geom.py", "calc_heavy_atom_rmsd"),                                 # the oracle d: heavy atoms only, 0.0 without any
     ("autode/geom.py", "calc_rmsd"), ("autode/geom.py", "get_rot_mat_kabsch"),   # ... after optimal alignment (cross-checked too)
     ("autode/species/species.py", "Species.reorder_atoms"),                     # node order of a molecule's graph (Model.g_order)
-    ("autode/mol_graphs.py", "reorder_nodes"),
+    ("autode/mol_graphs.py", "reorder_nodes"), ("autode/mol_graphs.py", "make_graph"),   # nodes inserted in label order
     ("autode/conformers/conformer.py", "Conformer.optimise"),                   # atoms = None on AtomsNotFound (stream atomless)
 ]
 
@@ -78,10 +78,7 @@ K_IDEM = "Conformers.prune_on_energy|not-idempotent"
 K_IDEM_PRUNE = "Conformers.prune|not-idempotent(recomputed-outliers)"
 
 K_REORDER = "Complex.__init__|graph-misaligned-after-reorder_atoms"
-PATCH_REORDER = ("proposed patch (autode/mol_graphs.py, reorder_nodes): build the relabelled graph with its nodes in label order, "
-                 "`g = nx.relabel_nodes(graph, mapping=..., copy=True); h = g.__class__(); h.graph.update(g.graph); "
-                 "h.add_nodes_from(sorted(g.nodes(data=True))); h.add_edges_from(g.edges(data=True)); return h` "
-                 "(or sort the nodes of every graph in mol_graphs.union before nx.disjoint_union_all)")
+PATCH_REORDER = "(repaired by fix e56d617: mol_graphs.reorder_nodes re-inserts the nodes in label order)"
 K_ETOL_NONE = "Conformers.prune_on_energy|e_tol-None-raises"
 K_ORDER = "Complex.__init__|atoms-order-3+molecules"
 K_CAUSE = "Conformers.prune_on_energy|deleted-without-cause"
@@ -614,14 +611,16 @@ def stream_energy(ctx, cases, fnd, full):
         cases.add("energy-prune", f"check_energy {coq_ens(ens)} {qc(et_f)} {qc(ns)} {coq_expect(got)}",
                   {"kind": "energy", "energies": ens, "e_tol": et_f, "n_sigma": ns, "impl": got, "witness": name},
                   ("w", name), True)
-    # e_tol=None is a documented value of the argument (docstring: Energy | float | None)
-    set_name_mode("same")
-    got = run_method(build_confs([0.0, 0.5, 1.0]), lambda cs: cs.prune_on_energy(e_tol=None))
-    if isinstance(got, str):
-        fnd.add(K_ETOL_NONE, 3, f"prune_on_energy(e_tol=None) on energies [0.0, 0.5, 1.0] raised {got}: None is documented as an accepted "
-                f"value of e_tol but is formatted with ':.6f' in the warning (conformers.py:125-128). proposed patch: treat None as "
-                f"'no uniqueness pruning' (`if e_tol is None: e_tol = 0.0`) before the isinstance test, or drop None from the docstring",
-                {"kind": "energy-etol-none", "energies": [0.0, 0.5, 1.0]})
+    # e_tol=None is a documented value of the argument (docstring: Energy | float | None); since fix d348d0e it means 0.0
+    for ens0, ns0 in (([0.0, 0.5, 1.0], 5), ([0.0, 0.0, None, 0.25, 9.0], 1.5), ([1.0], 5), ([], 5)):
+        set_name_mode("same")
+        got = run_method(build_confs(ens0), lambda cs: cs.prune_on_energy(e_tol=None, n_sigma=ns0))
+        if isinstance(got, str):
+            fnd.add(K_ETOL_NONE, len(ens0), f"prune_on_energy(e_tol=None, n_sigma={ns0}) on energies {ens0} raised {got}: None is documented as "
+                    f"an accepted value of e_tol (repaired by fix d348d0e: None -> 0.0)", {"kind": "energy-etol-none", "energies": ens0})
+        classify_energy(ens0, 0.0, ns0, got, fnd, "e_tol=None") if isinstance(got, list) else None
+        cases.add("energy-prune", f"check_energy {coq_ens(ens0)} (e_tol_used None) {qc(ns0)} {coq_expect(got)}",
+                  {"kind": "energy", "energies": ens0, "e_tol": None, "n_sigma": ns0, "impl": got}, ("etol-none", tuple(ens0), ns0), True)
     from autode.values import Energy
     for k in range(ncase):
         kind, ens = gen_energies(rng, 40 if (not full and k % 25 == 7) else nmax)
@@ -679,9 +678,7 @@ def classify_rmsd(n, D, tol, got, fnd, rep, check_empty=True):
 
 K_TOL_RAISES = "Conformers.prune_on_rmsd|non-float-tolerance-raises"
 K_TOL_UNIT = "Conformers.prune_on_rmsd|Distance-unit-ignored"
-PATCH_TOL = ("proposed patch (conformers.py, prune_on_rmsd :180-191): `rmsd_tol = Config.rmsd_threshold if rmsd_tol is None else rmsd_tol; "
-             "if not isinstance(rmsd_tol, Distance): rmsd_tol = Distance(float(rmsd_tol), 'Å')  # Å assumed; "
-             "rmsd_tol = float(rmsd_tol.to('ang'))` and compare `calc_heavy_atom_rmsd(...) < rmsd_tol` with that float")
+PATCH_TOL = "(repaired by fix 5b3a1b1: any non-Distance -> Distance(float(x), 'Å'), then float(rmsd_tol.to('Å')))"
 
 
 def tol_argument(rng, tol):
@@ -696,13 +693,13 @@ def tol_argument(rng, tol):
     if kind == "float":
         return float(tol), kind, f"(TFloat {qc(tol)})", tol, tol
     if kind == "int":
-        return int(tol), kind, f"(TOther {qc(int(tol))})", tol, None
+        return int(tol), kind, f"(TOther {qc(int(tol))})", tol, tol
     if kind == "float32":
         x = np.float32(tol)
-        return x, kind, f"(TOther {qc(float(x))})", float(x), None
+        return x, kind, f"(TOther {qc(float(x))})", float(x), float(x)
     unit, f = {"Distance-ang": ("ang", 1.0), "Distance-nm": ("nm", 10.0), "Distance-pm": ("pm", 0.01)}[kind]
     x = tol / f                       # the same length, expressed in `unit`
-    return Distance(x, unit), kind, f"(TDistance {qc(x)} {qc(Fraction(10) if unit == 'nm' else Fraction(1, 100) if unit == 'pm' else 1)})", x * f, x
+    return Distance(x, unit), kind, f"(TDistance {qc(x)} {qc(Fraction(10) if unit == 'nm' else Fraction(1, 100) if unit == 'pm' else 1)})", x * f, x * f
 
 
 def stream_rmsd(ctx, cases, fnd, full):
@@ -1269,6 +1266,11 @@ def stream_complex(ctx, cases, fnd, full):
             own = sorted(indep_graph(labs, [tuple(float(x) for x in a.coord) for a in m.atoms]).edges)
             g_edges = sorted((int(min(a, b)), int(max(a, b))) for a, b in m.graph.edges)
             g_labs = [m.graph.nodes[i]["atom_label"] for i in range(m.n_atoms)]
+            if [int(x) for x in m.graph.nodes] != list(range(m.n_atoms)):
+                # the premise `sorted_nodes` of Props.complex_graph_disjoint_union_partial
+                fnd.add("Species.graph|graph-nodes-not-in-label-order", m.n_atoms, f"molecule {POOL[combo[k]][0]} (reorder_atoms: {reordered[k]}): "
+                        f"its graph lists the nodes as {list(m.graph.nodes)}; nx.disjoint_union_all relabels by that order, so a complex "
+                        f"built from it gets a graph that is misaligned with its atoms", base_rep)
             if g_edges != own or g_labs != labs:
                 mol_graph_ok = False
                 fnd.add("Species.reorder_atoms|graph-does-not-follow-atoms" if reordered[k] else "mol_graphs.make_graph|differs-from-independent-perception",
@@ -1533,9 +1535,9 @@ MANIFEST = {
     "technique": "Coq proof over a hand model of the literal pruning loops, the selection pipeline and the complex bookkeeping "
                  "(source-pinned) + model/implementation correspondence on generated conformer sets and complexes + exact and "
                  "INDEPENDENT property oracles on the implementation (own Kabsch RMSD, own bond perception)",
-    "level_text": ("Machine-checked theorems (coq/C19/Props.v, 24, all closed under the global context) for ALL conformer lists, energy "
+    "level_text": ("Machine-checked theorems (coq/C19/Props.v, 22, all closed under the global context) for ALL conformer lists, energy "
                    "mixtures (present/missing), thresholds and oracles: prune_on_rmsd never raises, never empties a non-empty set, "
-                   "leaves every remaining pair >= tol, is idempotent (for a None / float / Angstrom-Distance tolerance argument); "
+                   "leaves every remaining pair >= tol, is idempotent, for every tolerance argument (None / float / other number / Distance in any unit); "
                    "prune_on_energy never raises (Crash constructor of the index loop unreachable), retained energies pairwise >= e_tol "
                    "apart, every non-outlier conformer (so the lowest non-outlier energy) is retained or within e_tol of a retained "
                    "one, everything deleted is an outlier or within e_tol of a retained one, non-empty for n_sigma >= 1; lowest_energy "
@@ -1543,11 +1545,12 @@ MANIFEST = {
                    "modelled) selects the minimum of the final energies among conformers whose FINAL geometry has the parent graph "
                    "unless allowed; Complex: atoms concatenation (Python's reflected-add dispatch modelled), charge sum, mult formula, "
                    "atom_indexes partition aligned with the atoms. REFUTED with witnesses that replay on the real code (findings): "
-                   "energy pruning empties the set for n_sigma < 1 and is not idempotent; a non-float or non-Angstrom tolerance "
-                   "argument of prune_on_rmsd raises / is mis-scaled; the complex graph (nx.disjoint_union_all relabels by node "
-                   "iteration order) is misaligned with the atoms after reorder_atoms on a molecule whose graph existed."),
+                   "energy pruning empties the set for n_sigma < 1 and is not idempotent (known).  Defects found by this check and "
+                   "repaired in /repo (regression inputs kept): d7bdc37, 00c84a3, facdd37, e56d617 (graph node order after "
+                   "reorder_atoms), 5b3a1b1 (RMSD tolerance types/units), d348d0e (e_tol None)."),
     "level_note": ("PARTIAL, stated as such in Props.v: (1) complex_graph_disjoint_union_partial needs every molecule graph to list "
-                   "its nodes in label order (false after reorder_atoms: refuted + finding); (2) rigid_body_preserves_internal_partial / "
+                   "its nodes in label order - an invariant of make_graph and (since e56d617) reorder_nodes that is pinned and checked "
+                   "by an oracle on every molecule, but graph construction is not modelled; (2) rigid_body_preserves_internal_partial / "
                    "separation_gt_2_on_exit_partial are algebra about the three primitive moves and the exit test of the push loop - "
                    "there is NO Gallina model of get_complex_conformer_atoms (loop over molecules, Atom.rotate) and termination of the "
                    "while loop is not proved (fuel): the last sentence of the property is exercised on the implementation only "
@@ -1557,7 +1560,7 @@ MANIFEST = {
                    "(5) complex_charge_sum / complex_mult are definitional (left fold = sum), their content is the correspondence; "
                    "(6) idempotence of the composite Conformers.prune has no theorem (oracle only: second call, finding key); "
                    "find_lowest_energy_conformer on species with <= 2 atoms (early return) and on a Complex is not run. "
-                   "Trusted: Coq kernel + vm_compute; the hand model (18+5 pinned functions; validated each run on 0-40 conformers, the "
+                   "Trusted: Coq kernel + vm_compute; the hand model (24 pinned functions; validated each run on 0-40 conformers, the "
                    "two-level selection pipeline with stubbed generation/optimisation, 0-3 molecule complexes incl. re-ordered "
                    "molecules); the implementation's RMSD matrix and isomorphism bits are fed to the model but cross-checked against "
                    "independent implementations written for the harness; numpy statistics, networkx. Exact rationals stand for "
